@@ -612,13 +612,15 @@ _upd("C02", "Proved for all inputs (Props/C02, 21 theorems): a request head, a f
      "standard.Conn, every cut of fold-heavy header blocks). Proved for all buffers: the edits are confined to the consumed bytes, bytes "
      "behind them and bytes appended later are untouched (edit_prefix_local, edit_appended_untouched), the answers are those of the pure "
      "scanner (edit_answer_is_scan), scanning the edited buffer again changes nothing - same fields, stop, consumed count, buffer "
-     "(edit_idempotent, edit_preserves_reading, trailer_second_pass_writes_nothing). 'Rescan after edit = one scan of the whole' is FALSE "
-     "of the code as it stands (rescan_after_edit_eq_whole_fails_at; known finding obsfold-compacted-before-complete, found while stating "
-     "the theorem) and proved for every buffer and every segmentation under the hypothesis that no retry stage compacted a value whose "
-     "look-ahead ended at the end of the buffer (rescan_after_edit_eq_whole_partial, rescan_after_edit_eq_whole_segments); the excluded "
-     "region is exactly the known-finding class; lifted to the header objects (resp_headers_rescan_partial, trailer_rescan_partial) and "
-     "to the whole response head with its first line (resp_head_rescan_partial), the resp.ReadHeader loop over any number of reads "
-     "(client_read_with_edits_segmentation_invariant) and the whole ext.parseTrailer (trailer_parse_rescan_partial). Body-reader error verdicts other than too-large are not claimed "
+     "(edit_idempotent, edit_preserves_reading, trailer_second_pass_writes_nothing). 'Rescan after edit = one scan of the whole' was false of the code (an obs-folded value was compacted before it was "
+     "complete; found while stating the theorem) and is repaired in /repo (c627e0d: Next answers need-more instead); the model follows "
+     "(scanNextN/scanBlockN: need-more with only the key rewritten) and the statement is proved WITHOUT hypothesis for every buffer and "
+     "every segmentation (rescan_after_edit_eq_whole, rescan_after_edit_eq_whole_segments), for the header objects "
+     "(resp_headers_rescan, trailer_rescan), the whole response head (resp_head_rescan) and the resp.ReadHeader loop on the edited "
+     "buffer over any number of reads (client_read_with_edits_segmentation_invariant); rescan_after_edit_eq_whole_repaired is the "
+     "regression on the former witnesses, rescan_without_needmore_rule_fails_at keeps the fact that the rule is needed; a recurrence is "
+     "a plain violation (no class). Still with the old hypothesis: the whole ext.parseTrailer with its optional 0-CRLF line "
+     "(trailer_parse_rescan_partial, about the scanner without the rule); the section behind it is unconditional. Body-reader error verdicts other than too-large are not claimed "
      "stable (a stream cut inside a chunk-size line is 'bad' only because it ended there).")
 _upd("C03", "Also proved for all inputs: every chunk size the reader accepts is below 2^63 (parsed_chunk_size_is_int, over the regenerated "
      "digit bound), and with a body limit configured no request whose body exceeds it ever reaches a handler (oversize_never_handled).")
